@@ -223,7 +223,7 @@ def c_pca(case, ctx):
         x = x * 2.0 ** sp  # exact in binary
         ctx.event("data unit 2^%d" % sp)
     idt = case.get("int_data")
-    if idt and float(np.abs(x).max()) > 64.0:
+    if idt and (float(np.abs(x).max()) > 64.0 or int(dc.get("unit_pow", 0)) != 0):
         idt = None  # far-from-origin clouds stay float (fixed point would overflow / lose the spread)
     if idt:
         # integer-valued (fixed point with 20 fractional bits: rounding perturbs the constructed spectrum by ~1e-4
